@@ -1,39 +1,56 @@
 (* C21 -- Schema changes preserve existing data.
    Only statements, each closed by [exact], each followed by Print Assumptions.
-   Model: Store/C21Alter.v (tables as ordered column definitions + rows binding every column name). *)
+   Model: Store/C21Alter.v (tables as ordered column definitions + primary key + rows binding every column name). *)
 From Coq Require Import List NArith ZArith Bool.
 Import ListNotations.
 From GMS Require Import Store.C21Alter Store.C21AlterProofs.
 Open Scope N_scope.
 
 (* every ALTER statement of the modelled fragment (ADD / DROP / MODIFY / CHANGE / RENAME COLUMN with FIRST / AFTER,
-   RENAME TO, ADD / DROP INDEX), every table, every number of rows: a column that is retained (under its possibly
-   new name n') has, row by row, its old value, converted to the new definition when the statement re-types it *)
+   RENAME TO, ADD / DROP INDEX, ADD / DROP PRIMARY KEY), every table, every number of rows: a column that is retained
+   (under its possibly new name n') has, row by row, its old value, converted to the new definition when the
+   statement re-types it *)
 Theorem C21_alter_preserves_retained_partial :
   forall o t t' n n', inv t -> alter o t = Some t' -> In n (names t) -> retained o n = Some n' ->
-    Forall2 (fun r r' => exists v v', lookup n r = Some v /\ lookup n' r' = Some v' /\ convd o n v = Some v')
+    Forall2 (fun r r' => exists v v', lookup n r = Some v /\ lookup n' r' = Some v' /\ convd o t n v = Some v')
             (rows t) (rows t').
 Proof. exact alter_preserves_retained. Qed.
 Print Assumptions C21_alter_preserves_retained_partial.
-(* _partial: ADD / DROP PRIMARY KEY, collation changes and cross-family conversions (number <-> text, decimal,
-   temporal) are not in the model; rows are name-indexed (the positional layout of memory.Table is abstracted). *)
-
-(* otherwise (a value is not representable, the column does not exist, the name is taken ...) the statement
-   fails and the table is what it was *)
-Theorem C21_failed_alter_has_no_effect :
-  forall o t, alter o t = None -> exec o t = t.
-Proof. exact failed_alter_no_effect. Qed.
-Print Assumptions C21_failed_alter_has_no_effect.
+(* _partial: rows are name-indexed (the positional layout of memory.Table is abstracted); conversions cover integer
+   ranges, VARCHAR length / collation, ENUM redefinition, DECIMAL <-> DECIMAL / integer, DATE <-> DATETIME(0);
+   number <-> text, FLOAT, TIME, YEAR, TIMESTAMP and fractional seconds are not modelled. *)
 
 (* a MODIFY succeeds only if every existing value is representable in the new definition *)
 Theorem C21_modify_succeeds_only_if_representable :
-  forall n c' p t t' , inv t -> alter (OModify n c' p) t = Some t' -> In n (names t) ->
-    Forall (fun r => exists v v', lookup n r = Some v /\ conv c' v = Some v') (rows t).
+  forall n c' p t t', inv t -> alter (OModify n c' p) t = Some t' -> In n (names t) ->
+    Forall (fun r => exists v v', lookup n r = Some v /\ conv (eff t n c') v = Some v') (rows t).
 Proof. exact modify_representable. Qed.
 Print Assumptions C21_modify_succeeds_only_if_representable.
 
-(* the invariant "every row binds exactly the current column names" and the number of rows survive every
-   statement, hence every ALTER sequence of any length *)
+(* otherwise (a value is not representable, the column does not exist, the name is taken, the key has duplicates ...)
+   the statement fails and the table is what it was -- for every statement except an ENUM redefinition *)
+Theorem C21_failed_alter_has_no_effect :
+  forall o t, not_enum_modify o t = true -> alter o t = None -> exec o t = t.
+Proof. exact failed_alter_no_effect. Qed.
+Print Assumptions C21_failed_alter_has_no_effect.
+
+(* the faithful model of modifyColumnIter.rewriteTable violates "fails without effect": a failing ENUM redefinition on
+   the rewrite path leaves the rows visited before the failure re-indexed.  Witness: c2 enum('Z','m'), rows 'm','Z',NULL,'m';
+   MODIFY c2 enum('m') NOT NULL FIRST fails, row 1 then reads 'Z'. *)
+Definition enum_witness : table :=
+  mkt 1 [mkc 0 (TInt (-2147483648) 2147483647) false; mkc 2 (TEnum [[90]; [109]]) true] [0]
+      [[(0, VInt 1); (2, VStr [109])]; [(0, VInt 2); (2, VStr [90])]; [(0, VInt 3); (2, VNull)]; [(0, VInt 4); (2, VStr [109])]].
+
+Theorem C21_failed_enum_redefinition_has_effect_refuted :
+  exists o t, alter o t = None /\ column (exec o t) 2 <> column t 2.
+Proof.
+  exists (OModify 2 (mkc 2 (TEnum [[109]]) false) PFirst), enum_witness. split; [vm_compute; reflexivity|].
+  vm_compute. discriminate.
+Qed.
+Print Assumptions C21_failed_enum_redefinition_has_effect_refuted.
+
+(* ... but even that failure keeps every row, every key of every row, and every other column: the invariant and the
+   number of rows survive every statement, hence every ALTER sequence of any length *)
 Theorem C21_sequences_keep_rows_and_invariant :
   forall os t, inv t -> inv (exec_seq os t) /\ length (rows (exec_seq os t)) = length (rows t).
 Proof. exact exec_seq_inv_rows. Qed.
@@ -46,15 +63,71 @@ Theorem C21_untouched_column_unchanged_by_sequences :
 Proof. exact untouched_column_unchanged. Qed.
 Print Assumptions C21_untouched_column_unchanged_by_sequences.
 
-(* non-vacuity: a table with two rows; widening succeeds and keeps values, narrowing fails without effect,
-   renaming keeps the values under the new name *)
+(* ADD PRIMARY KEY succeeds only on a keyless table whose key tuples are non-NULL and pairwise distinct, and then keeps
+   every row; DROP PRIMARY KEY keeps rows and columns (failure of either: C21_failed_alter_has_no_effect) *)
+Theorem C21_add_primary_key :
+  forall ks t t', alter (OAddPK ks) t = Some t' ->
+    rows t' = rows t /\ pk t' = ks /\ pk t = [] /\
+    distinct_keys (map (key_of ks) (rows t)) = true /\
+    forallb (fun r => forallb (fun k => non_null (lookup k r)) ks) (rows t) = true.
+Proof. exact add_pk_spec. Qed.
+Print Assumptions C21_add_primary_key.
+
+Theorem C21_drop_primary_key :
+  forall t t', alter ODropPK t = Some t' -> rows t' = rows t /\ cols t' = cols t /\ pk t' = [].
+Proof. exact drop_pk_spec. Qed.
+Print Assumptions C21_drop_primary_key.
+
+(* conversions are exact when the value is representable: integer -> DECIMAL, DECIMAL to a wider scale, DATE -> DATETIME,
+   VARCHAR (any length / collation change), ENUM; a narrower scale rounds to a nearest value; DATETIME -> DATE keeps the day *)
+Theorem C21_int_to_decimal_exact :
+  forall c z u s, conv c (VInt z) = Some (VDec u s) -> u = (z * pow10 s)%Z.
+Proof. exact conv_int_to_dec_exact. Qed.
+Print Assumptions C21_int_to_decimal_exact.
+
+Theorem C21_decimal_widen_exact :
+  forall c u s0 u' s, conv c (VDec u s0) = Some (VDec u' s) -> s0 <= s -> (u' * pow10 s0 = u * pow10 s)%Z.
+Proof. exact conv_dec_widen_exact. Qed.
+Print Assumptions C21_decimal_widen_exact.
+
+Theorem C21_decimal_narrow_nearest :
+  forall c u s0 u' s, conv c (VDec u s0) = Some (VDec u' s) -> s < s0 ->
+    (Z.abs (u' * pow10 (s0 - s) - u) * 2 <= pow10 (s0 - s))%Z.
+Proof. exact conv_dec_narrow_nearest. Qed.
+Print Assumptions C21_decimal_narrow_nearest.
+
+Theorem C21_date_to_datetime_exact :
+  forall c t v, cty c = TDatetime -> conv c (VTime t) = Some v -> v = VTime t.
+Proof. exact conv_to_datetime_exact. Qed.
+Print Assumptions C21_date_to_datetime_exact.
+
+Theorem C21_datetime_to_date_keeps_day :
+  forall c t v, cty c = TDate -> conv c (VTime t) = Some v ->
+    exists d, v = VTime d /\ (d mod 86400 = 0 /\ d <= t < d + 86400)%Z /\ ((t mod 86400 = 0)%Z -> d = t).
+Proof. exact conv_to_date_day. Qed.
+Print Assumptions C21_datetime_to_date_keeps_day.
+
+Theorem C21_collation_or_length_change_keeps_bytes :
+  forall c s v n k, cty c = TStr n k -> conv c (VStr s) = Some v -> v = VStr s.
+Proof. exact conv_to_varchar_keeps_bytes. Qed.
+Print Assumptions C21_collation_or_length_change_keeps_bytes.
+
+Theorem C21_enum_redefinition_keeps_member :
+  forall c s v ms, cty c = TEnum ms -> conv c (VStr s) = Some v -> v = VStr s /\ existsb (bytes_eqb s) ms = true.
+Proof. exact conv_to_enum_keeps_member. Qed.
+Print Assumptions C21_enum_redefinition_keeps_member.
+
+(* non-vacuity: widening succeeds and keeps values, narrowing fails without effect, renaming keeps the values under the
+   new name, a duplicate key makes ADD PRIMARY KEY fail, a distinct one succeeds, 12.5 -> INT is 13 *)
 Definition t0 : table :=
-  mkt 1 [mkc 0 (TInt (-2147483648) 2147483647) false; mkc 1 (TInt (-32768) 32767) true]
-      [[(0, VInt 1); (1, VInt 300)]; [(0, VInt 2); (1, VNull)]].
+  mkt 1 [mkc 0 (TInt (-2147483648) 2147483647) false; mkc 1 (TInt (-32768) 32767) true] []
+      [[(0, VInt 1); (1, VInt 300)]; [(0, VInt 2); (1, VNull)]; [(0, VInt 3); (1, VInt 300)]].
 
 Example C21_nonvacuous :
   invb t0 = true /\
-  column (exec (OModify 1 (mkc 1 (TInt (-2147483648) 2147483647) true) PFirst) t0) 1 = [Some (VInt 300); Some VNull] /\
+  column (exec (OModify 1 (mkc 1 (TInt (-2147483648) 2147483647) true) PFirst) t0) 1 = [Some (VInt 300); Some VNull; Some (VInt 300)] /\
   alter (OModify 1 (mkc 1 (TInt (-128) 127) true) PKeep) t0 = None /\
-  column (exec_seq [ORename 1 7; OAdd (mkc 2 (TStr 5) false) (VStr []) (PAfter 0)] t0) 7 = [Some (VInt 300); Some VNull].
+  column (exec_seq [ORename 1 7; OAdd (mkc 2 (TStr 5 0) false) (VStr []) (PAfter 0)] t0) 7 = [Some (VInt 300); Some VNull; Some (VInt 300)] /\
+  alter (OAddPK [1]) t0 = None /\ pk (exec (OAddPK [0]) t0) = [0] /\
+  conv (mkc 1 (TInt (-128) 127) true) (VDec 125 1) = Some (VInt 13).
 Proof. repeat split; vm_compute; reflexivity. Qed.
